@@ -2546,3 +2546,34 @@ package sftp
 //@   modifies nothing
 
 // (C10 / C01: bytes a handler's ReadAt delivered together with io.EOF reach the client as data; EOF alone is a status)
+
+// ---------------------------------------------------------------------------
+// constructors and remaining options: what the other contracts assume about a fresh server / client (serverOK, rsOK, ...)
+
+//@ func newPktMgr
+//@   property C02, C18
+//@   requires sender != nil
+//@   ensures result != nil && result.working != nil && result.sender == sender && result.alloc == nil && result.packetCount == 0
+
+//@ func ReadOnly$1
+//@   property C09
+//@   requires s != nil
+//@   ensures result == nil && s.readOnly
+
+//@ func WithAllocator$1
+//@   property C18
+//@   requires s != nil && s.pktMgr != nil && s.serverConn != nil
+//@   ensures result == nil && s.pktMgr.alloc != nil && s.conn.alloc == s.pktMgr.alloc && s.pktMgr.alloc.used != nil
+// (the frame reader and the packet manager share ONE allocator: pages taken for a received packet are released by
+//  the manager that sends the response)
+
+//@ func WithRSAllocator$1
+//@   property C18
+//@   requires rs != nil && rs.pktMgr != nil && rs.serverConn != nil
+//@   ensures rs.pktMgr.alloc != nil && rs.conn.alloc == rs.pktMgr.alloc && rs.pktMgr.alloc.used != nil
+
+//@ func WithServerWorkingDirectory$1
+//@   property C05
+//@   requires s != nil
+//@   ensures result == nil && s.workDir == cleanPath(workDir)
+
